@@ -57,7 +57,7 @@ def run(ctx):
             _determinism(ctx, fn, 'hszinc/zoneinfo.py')
             _no_module_state(ctx, fn, 'hszinc/zoneinfo.py', module_level)
     ctx.count('dumper functions analysed', n_fn)
-    ctx.floor('dumper functions analysed', n_fn, 40)
+    ctx.floor('dumper functions analysed', n_fn, 30)
     _zone_maps(ctx, m)
     # D3
     gates = []
